@@ -161,6 +161,16 @@ INDEXED4 = set(storegen.INDEXED) | {("group", "data_frames")}
 
 
 COPY_NAMES = ["copy", "c2", "k", "a", "z1"]
+# the containers that can OWN an entity of a kind: (owner kind, container name). `del container[obj]` takes any object
+# of the container's item class, member or not - the histories hand objects to containers that do not hold them
+OWNED_IN = {"data_array": [("block", "data_arrays")], "data_frame": [("block", "data_frames")],
+            "tag": [("block", "tags")], "multi_tag": [("block", "multi_tags")], "group": [("block", "groups")],
+            "source": [("block", "sources"), ("source", "sources")],
+            "section": [("file", "metadata"), ("section", "sections")],
+            "property": [("section", "properties")],
+            "feature": [("tag", "features"), ("multi_tag", "features")]}
+FOREIGN_KIND_WEIGHTS = [("data_array", 22), ("data_frame", 8), ("source", 20), ("section", 20), ("tag", 7),
+                        ("multi_tag", 7), ("group", 5), ("feature", 5), ("property", 6)]
 
 
 def real_uuid_name(nm):
@@ -224,8 +234,10 @@ class DelGen(storegen.Gen):
                 self.copies(ents, then_delete=0.15)
             return
         r = self.rng.random()
-        if r < 0.36:
+        if r < 0.30:
             self.delete(ents)
+        elif r < 0.36:
+            self.delete_foreign(ents)
         elif r < 0.46:
             self.copies(ents, then_delete=0.6)
         elif r < 0.60:
@@ -451,6 +463,91 @@ class DelGen(storegen.Gen):
         if e.name is not None and not storegen.real_uuid(e.name):
             self.do(["has", owner_path, cname, {"s": e.name}])
         self.after_probe(e.block)
+
+    def delete_foreign(self, ents):
+        """`del container[obj]` where the entity object is NOT a member of the container it is handed to: the list of
+        another block, of another parent section / source, the file's top-level sections, another tag's features, a
+        link list that does not link it - preferably a container that holds an entity of the same name (names are
+        reused in different parents) or, after an id-keeping copy, of the same id. The property: either refused and
+        nothing changes, or exactly the entity handed over is deleted - never its namesake."""
+        rng = self.rng
+        kinds = [k for k, w in FOREIGN_KIND_WEIGHTS for _ in range(w)]
+        e = None
+        for _ in range(6):
+            e = self.pick(ents, rng.choice(kinds))
+            if e is not None:
+                break
+        if e is None:
+            return
+        home = (e.path[:-2], e.path[-2])
+        if rng.random() < 0.2 and e.kind in LINK_OWNERS:
+            # a link list of some owner (any block): the entry is looked up by the object's id
+            cands = [(o.path, cname) for okind, cname in LINK_OWNERS[e.kind] for o in ents if o.kind == okind]
+            flavour = "link list"
+        else:
+            cands = [([], cname) for okind, cname in OWNED_IN[e.kind] if okind == "file"]
+            cands += [(o.path, cname) for okind, cname in OWNED_IN[e.kind] for o in ents if o.kind == okind]
+            cands = [c for c in cands if c != home]
+            flavour = "container"
+        if not cands:
+            return
+        same = [c for c in cands if e.name is not None and
+                any(x.kind == e.kind and x.name == e.name and (x.path[:-2], x.path[-2]) == c for x in ents)]
+        if same and rng.random() < 0.65:
+            owner_path, cname = rng.choice(same)
+            what = "holding a namesake"
+        else:
+            owner_path, cname = rng.choice(cands)
+            what = "holding a namesake" if (owner_path, cname) in same else "without a namesake"
+            if what == "without a namesake" and flavour == "container" and rng.random() < 0.6 \
+                    and self.make_namesake(ents, e, owner_path, cname):
+                what = "holding a namesake"
+        self.count("delete %s by object through another %s %s" % (e.kind, flavour, what))
+        key = {"o": e.path}
+        if e.kind in ("section", "source") and flavour == "container":
+            self.ops.append(["fuel_ok", owner_path, cname, key])
+            self.outs.append({"ok": True})
+        self.do(["del", owner_path, cname, key])
+        self.do(["list", owner_path, cname])
+        self.do(["list", home[0], home[1]])
+        self.after_probe(e.block)
+
+    def make_namesake(self, ents, e, owner_path, cname):
+        """an entity of e's kind and name in the container of `owner_path` (the same name reused in another parent),
+        linked from somewhere now and then; False if the kind / name does not allow it"""
+        rng = self.rng
+        if e.name is None or real_uuid_name(e.name) or e.name in storegen.NAMES_BAD:
+            return False
+        if e.kind in ("data_array", "tag", "group", "source"):
+            out = self.do(["create", owner_path, e.kind, e.name, "t", None])
+        elif e.kind == "multi_tag":
+            pos = [x for x in ents if x.kind == "data_array" and x.path[:2] == owner_path[:2]]
+            if not pos:
+                return False
+            out = self.do(["create", owner_path, "multi_tag", e.name, "t", rng.choice(pos).path])
+        elif e.kind == "data_frame":
+            out = self.do(["create_df", owner_path, e.name])
+        elif e.kind == "section":
+            out = self.do(["create_section", owner_path, e.name, "t"])
+        elif e.kind == "property":
+            out = self.do(["create_property", owner_path, e.name])
+        else:
+            return False
+        if "ok" not in out:
+            return False
+        self.count("namesake created in another parent")
+        twin = owner_path + [cname, e.name]
+        if rng.random() < 0.6:
+            if e.kind == "section":
+                o = self.pick(ents, rng.choice(["data_array", "group", "tag", "block", "source"]))
+                if o is not None:
+                    self.do(["set_role", o.path, "metadata", twin])
+            elif e.kind in LINK_OWNERS:
+                okind, cn = rng.choice(LINK_OWNERS[e.kind])
+                o = self.pick([x for x in ents if x.path[:2] == owner_path[:2]], okind)
+                if o is not None:
+                    self.do(["append", o.path, cn, {"o": twin}])
+        return True
 
     def unlink(self, ents):
         rng = self.rng
@@ -1083,6 +1180,7 @@ class Checker:
 
     def run_del(self, op):
         impl = self.impl
+        foreign = False             # an entity object handed to a container that does not hold it
         try:
             owner = impl.nav(op[1])
             t = self.target(op)
@@ -1092,22 +1190,51 @@ class Checker:
                 and not (isinstance(owner, nixio.Block)) and not (isinstance(owner, nixio.Source))
             opath = wpath(impl, op[1]) if op[1] else "/"
             tinfo = None
+            by_obj = isinstance(op[3], dict) and "o" in op[3]
             if t is not None:
                 ent, pos = t
                 if linkc:
                     tinfo = (ent.id, getattr(ent, "name", None))
                 else:
                     tinfo = wpath(impl, op[1] + [op[2], pos if op[2] == "features" else ent.name])
+            elif by_obj:
+                # the object is not a member. If the call is accepted, the entity deleted must be the one handed
+                # over (wherever it lives) - not a member that happens to carry its name; a link list is keyed by
+                # id: the entry carrying the object's id (an id-keeping copy of it), if there is one
+                foreign = True
+                ent = impl.nav(op[3]["o"])
+                if linkc:
+                    held = [it for it in impl.container(owner, op[2]) if it.id == ent.id]
+                    tinfo = (ent.id, getattr(ent, "name", None)) if held else None
+                else:
+                    tinfo = wpath(impl, op[3]["o"])
         except BadOp:
             return impl.run(op)
         except Exception:
             return impl.run(op)
         w0 = norm(the_walk(impl))
         out = impl.run(op)
-        if t is None or "ok" not in out:
-            # a refused deletion is C12's subject; an entity object handed to a container that does not hold it
-            # (accepted by the code: the entity is deleted wherever it lives) is not addressed by the property text
+        if by_obj and "err" in out:
+            # refused (wrong class, not linked here, ...): then nothing may have been deleted
+            w1 = norm(the_walk(impl))
+            self.checked += 1
+            self.kinds["refused by object"] = self.kinds.get("refused by object", 0) + 1
+            if not walks_equal(w0, w1):
+                self.fail("del %s.%s[<entity object>] was refused (%s) but the file changed" % (okind, op[2], out["err"]),
+                          first_diff(w0, w1), "refused-delete")
             return out
+        if "ok" not in out or (t is None and not foreign):
+            # a refused deletion by name / id / index is C12's subject; a key that addresses nothing here
+            return out
+        if foreign:
+            self.kinds["by object, not a member"] = self.kinds.get("by object, not a member", 0) + 1
+            if tinfo is None:       # accepted although the link list has no entry with that id: nothing to remove
+                w1 = norm(the_walk(impl))
+                self.checked += 1
+                if not walks_equal(w0, w1):
+                    self.fail("del %s.%s[<entity object not linked there>] was accepted and changed the file"
+                              % (okind, op[2]), first_diff(w0, w1), "unlink")
+                return out
         w1 = norm(the_walk(impl))
         self.checked += 1
         if linkc:
@@ -1241,7 +1368,54 @@ def fixed_cases():
                    ["set_role", ["metadata", "s2"], "link", None], ["set_role", ["metadata", "s2"], "link", None]]))
     cases.append(("extents cleared", topo + [["set_role", B + ["multi_tags", "mt"], "extents", None],
                                              ["set_role", B + ["multi_tags", "mt"], "extents", None]]))
+    cases += foreign_cases(topo)
     cases += copy_cases(topo)
+    return cases
+
+
+def foreign_cases(topo):
+    """`del container[obj]` with an entity object that is not a member of that container, which holds an entity of
+    the same name (names reused in different parents): refused and nothing changes, or exactly the object handed
+    over is deleted - its namesake, and every link to the namesake, stay"""
+    a = B + ["data_arrays", "a"]
+    sec = ["metadata", "sec"]
+    sub = sec + ["sections", "sub"]
+    deep = B + ["sources", "src", "sources", "deep"]
+    cases = [
+        ("array handed to the list of another block that holds a namesake",
+         topo + [["del", B2, "data_arrays", {"o": a}]]),
+        ("array of the other block handed to this block's list (namesake linked from groups, tags, features)",
+         topo + [["del", B, "data_arrays", {"o": B2 + ["data_arrays", "a"]}]]),
+        ("nested section handed to the file's section list that holds a namesake",
+         topo + [["del", [], "metadata", {"o": sub}]]),
+        ("top-level section handed to a nested section list that holds a namesake",
+         topo + [["del", sec, "sections", {"o": ["metadata", "sub"]}]]),
+        ("nested source handed to the block's source list that holds a namesake",
+         topo + [["del", B, "sources", {"o": deep}]]),
+        ("top-level source handed to a nested source list that holds a namesake",
+         topo + [["del", B + ["sources", "src"], "sources", {"o": B + ["sources", "deep"]}]]),
+        ("source handed to its own child list", topo + [["del", deep, "sources", {"o": deep}]]),
+        ("property handed to the property list of another section that holds a namesake",
+         topo + [["del", sub, "properties", {"o": sub + ["sections", "leaf", "properties", "p"]}]]),
+        ("feature of a multi-tag handed to the feature list of a tag",
+         topo + [["del", B + ["tags", "tg"], "features", {"o": B + ["multi_tags", "mt2", "features", 0]}]]),
+        ("group handed to the group list of another block that holds a namesake",
+         topo + [["del", B2, "groups", {"o": B + ["groups", "g"]}]]),
+        ("array handed to link lists that do not link it, frame handed to the array list (refused)",
+         topo + [["del", B2 + ["groups", "g"], "data_arrays", {"o": a}],
+                 ["del", B + ["multi_tags", "mt2"], "references", {"o": a}],
+                 ["del", B + ["groups", "g2"], "sources", {"o": B + ["sources", "deep"]}],
+                 ["del", B, "data_arrays", {"o": B + ["data_frames", "a"]}],
+                 ["del", B, "data_frames", {"o": a}]]),
+        ("id-keeping copy under the same name in another block: the original handed to the copy's list",
+         topo + [["copy_into", B2, "data_array", B + ["data_arrays", "keep"], "", True],
+                 ["append", B2 + ["groups", "g"], "data_arrays", {"o": B2 + ["data_arrays", "keep"]}],
+                 ["del", B2, "data_arrays", {"o": B + ["data_arrays", "keep"]}]]),
+        ("id-keeping copy linked from a group of the other block: the original handed to that link list",
+         topo + [["copy_into", B2, "data_array", B + ["data_arrays", "keep"], "", True],
+                 ["append", B2 + ["groups", "g"], "data_arrays", {"o": B2 + ["data_arrays", "keep"]}],
+                 ["del", B2 + ["groups", "g"], "data_arrays", {"o": B + ["data_arrays", "keep"]}]]),
+    ]
     return cases
 
 
